@@ -1555,16 +1555,23 @@ class Connection(object):
         # safely call HostConnection{Pool,}.return_connection on this
         # Connection.
         #
-        # We use a busy wait on the lock here because:
-        # - we'll only spin if the connection is at max capacity, which is very
-        #   unlikely for a set_keyspace call
-        # - it allows us to avoid signaling a condition every time a request completes
-        while True:
-            with self.lock:
-                if self.in_flight < self.max_request_id:
-                    self.in_flight += 1
-                    break
-            time.sleep(0.001)
+        # If the connection is at max capacity (very unlikely for a set_keyspace
+        # call) we try again from a timer instead of waiting here: this method is
+        # normally called on the event loop thread, the same thread that processes
+        # the responses which free a request id, so blocking it would never end.
+        # It also avoids signaling a condition every time a request completes.
+        with self.lock:
+            at_capacity = self.in_flight >= self.max_request_id
+            if not at_capacity or self.is_closed or self.is_defunct:
+                self.in_flight += 1
+
+        if at_capacity:
+            if self.is_closed or self.is_defunct:
+                callback(self, ConnectionShutdown(
+                    "Connection to %s is %s" % (self.endpoint, "defunct" if self.is_defunct else "closed")))
+            else:
+                self.create_timer(0.001, partial(self.set_keyspace_async, keyspace, callback))
+            return
 
         if not keyspace or keyspace == self.keyspace:
             callback(self, None)
